@@ -345,7 +345,7 @@ func scenCodec(rep *Report, tier string, seed int64) {
 		raw := string(content)
 		kind := "canonical"
 		// byte-level mutations
-		switch r.Intn(15) {
+		switch r.Intn(16) {
 		case 0:
 			raw = strings.Replace(raw, `"version":1`, `"version":1,"version":1`, 1)
 			kind = "dup-version"
@@ -388,6 +388,15 @@ func scenCodec(rep *Report, tier string, seed int64) {
 		case 12:
 			raw = strings.Replace(raw, `"type":"p`, `"type":"x`, 1)
 			kind = "unknown-ticker"
+		case 14:
+			// the input's "type" key dropped and replaced by an unknown key whose length makes up
+			// for it in the decoder's length accounting (23-character key, one-digit value)
+			if i := strings.Index(raw, `"type":"`); i >= 0 {
+				j := i + len(`"type":"`)
+				k := j + strings.Index(raw[j:], `"`)
+				raw = raw[:i] + `"aaaaaaaaaaaaaaaaaaaaaaa":1` + raw[k+1:]
+				kind = "type-replaced-by-padding-key"
+			}
 		case 13:
 			// a known ticker decorated with JSON-escaped backslashes or quotes is not that ticker
 			field := []string{`"conversion":"`, `"type":"`}[r.Intn(2)]
@@ -418,6 +427,19 @@ func scenCodec(rep *Report, tier string, seed int64) {
 		rep.Count("codec:" + kind)
 		if i < 3 {
 			rep.Sample(map[string]interface{}{"kind": kind, "content": raw, "accepted": ok})
+		}
+		// the decoders themselves against the Lean model of them (Pegnet/Json.lean), on the token tree
+		if line, clen, okTree := TreeLine([]byte(raw)); okTree {
+			want := fmt.Sprintf("reject len=%d", clen)
+			if uerr == nil {
+				want = RenderDecoded(&tb, clen)
+			}
+			if ans := m.Ask("json " + line); ans != want {
+				path := WriteReplay(rep.Property, "codec-decode", Replay{Property: rep.Property, Scenario: "codec", Seed: seed,
+					What: "fat2's JSON decoders and the model of them disagree", Extra: map[string]interface{}{"content": raw, "impl": want, "model": ans}})
+				rep.Disagree("json-decode", fmt.Sprintf("impl=%s model=%s content=%s", want, ans, raw), path)
+			}
+			rep.Count("codec:decoded-by-model")
 		}
 		issue := canonicalIssues([]byte(raw))
 		if ok && issue != "" {
